@@ -3,8 +3,8 @@ from verif import Case
 from gen_util import *
 import pyref, struct
 
-MODULES = ["WowSrp.Props.C18", "WowSrp.Props.Source.C18", "WowSrp.Props.Source.Structural.C18", "WowSrp.Props.Source.Rc4Prga", "WowSrp.Props.Source.LoopsCoords", "WowSrp.Props.Source.LoopsCard", "WowSrp.Props.Source.Shape.C18"]
-THEOREMS = ["C18_defs", "C18_cell", "C18_cells_disjoint", "C18_coords", "C18_coords_on_card", "C18_round_bound", "C18_round_bound_any", "C18_reads_exists", "C18_accept", "C18_reject", "C18_source_layout", "C18_source_no_hidden_state", "C18_source_structural_impls", "C18_reject_iff", "C18_reject_unpinned", "C18_translated_prga", "C18_translated_generate_coordinates", "C18_translated_get_number_at", "C18_translated_card_size", "C18_source_shapes", "C18_translated_signatures"]
+MODULES = ["WowSrp.Props.C18", "WowSrp.Props.Source.C18", "WowSrp.Props.Source.Structural.C18", "WowSrp.Props.Source.Rc4Prga", "WowSrp.Props.Source.LoopsCoords", "WowSrp.Props.Source.LoopsCard", "WowSrp.Props.Source.Shape.C18", "WowSrp.Props.Source.Rc4Ksa"]
+THEOREMS = ["C18_defs", "C18_cell", "C18_cells_disjoint", "C18_coords", "C18_coords_on_card", "C18_round_bound", "C18_round_bound_any", "C18_reads_exists", "C18_accept", "C18_reject", "C18_source_layout", "C18_source_no_hidden_state", "C18_source_structural_impls", "C18_reject_iff", "C18_reject_unpinned", "C18_translated_prga", "C18_translated_generate_coordinates", "C18_translated_get_number_at", "C18_translated_card_size", "C18_source_shapes", "C18_translated_signatures", "C18_translated_ksa"]
 RULE = ("cards via from_data and via MatrixCard::new with injected digit draws (incl. rejected samples): geometries (digit_count 1..4, w, h) with w*h <= 255 "
         "(thorough: every geometry, quick: sampled + extremes), distinct cell contents so a wrong cell is visible; get_number_at_coordinates(x,y) vs "
         "to_printer().nth(y*w+x) for every cell; coordinates for all rounds 0..=255 under catch_unwind vs an independent selection-without-replacement; "
